@@ -71,7 +71,7 @@ fn content(rng: &mut Rng, cl: &mut Classes) -> (Vec<u8>, &'static str) {
     let o = GenOpts { max_depth: 3, max_width: 3, ..GenOpts::common() };
     let mut feats = Feats::default();
     match rng.below(10) {
-        0 => ((*rng.pick(&[&b"[1]"[..], b"{}", b"1 = 2\n", b"\"a\" = 1\n", b"[a]\n", b"a: b\n", b"k = \"a: b\"\n"])).to_vec(), "valid_in_several_formats"),
+        0 => ((*rng.pick(&[&b"[1]"[..], b"{}", b"1 = 2\n", b"\"a\" = 1\n", b"[a]\n", b"a: b\n", b"k = \"a: b\"\n", b"", b"", b"\n", b"# only a comment\n"])).to_vec(), "valid_in_several_formats"),
         1 => ((*rng.pick(&[&b"{\"a\": [}"[..], b"\x01\x02 nothing", b"a: [unclosed\n", b"= 1\n", b"\xc1"])).to_vec(), "invalid"),
         _ => {
             let f = ALL[rng.below(4)];
@@ -93,9 +93,9 @@ pub fn gen_case(seed: u64, idx: usize, acc: &mut Acc) -> Case {
     for i in 0..n {
         let (mut bytes, cclass) = content(&mut rng, &mut cl);
         acc.count(&format!("content_{cclass}"));
-        // a document-less YAML file read as a slice is a recorded C02 finding: keep it out
-        if crate::read::yaml::read_docs(&bytes).map(|d| d.is_empty()).unwrap_or(false) {
-            bytes = b"a: 1\n".to_vec();
+        let documentless = crate::read::yaml::read_docs(&bytes).map(|d| d.is_empty()).unwrap_or(false);
+        if documentless {
+            acc.count(if bytes.is_empty() { "content_zero_length" } else { "content_blank_or_comment_only" });
         }
         let kind = match rng.below(12) {
             0 | 1 | 2 => "stdin",
@@ -105,6 +105,7 @@ pub fn gen_case(seed: u64, idx: usize, acc: &mut Acc) -> Case {
             _ => "regular",
         };
         if kind == "stdin" {
+            // (standard input is read through a reader: the recorded slice-only finding does not apply)
             if !inputs.iter().any(|x: &Input| x.kind == "stdin") {
                 stdin = bytes.clone();
             }
@@ -126,7 +127,12 @@ pub fn gen_case(seed: u64, idx: usize, acc: &mut Acc) -> Case {
         if ext.chars().any(|c| c.is_ascii_uppercase()) {
             acc.count("extension_with_upper_case");
         }
-        inputs.push(Input { name: format!("in{i}{ext}"), kind, content: bytes });
+        let name = format!("in{i}{ext}");
+        // a document-less YAML file read as a SLICE is a recorded C02 finding: keep exactly that combination out
+        if documentless && kind == "regular" && from.or_else(|| climodel::extension_format(&name)) == Some(Fmt::Yaml) {
+            bytes = b"a: 1\n".to_vec();
+        }
+        inputs.push(Input { name, kind, content: bytes });
     }
     // standard input as a regular file (shell redirection), also with bytes before the current offset
     let stdin_file_prefix = match rng.below(6) {
@@ -269,7 +275,7 @@ pub fn run(ctx: &Ctx) -> i32 {
     strace_sample(&mut acc);
     let rule = format!("{} invocations: -f absent or each format x 1-3 inputs, each a regular file / FIFO / '-' (also twice; standard input a pipe, or a regular file at offset 0 or past earlier bytes; one run in five delivers pipe and FIFO content in bursts with pauses) / directory / missing file, named with every extension in random letter case, multi-dot, none or misleading, holding content of each format (1-3 generated documents), content valid in several formats, or invalid content, x all targets; expected stdout and exit status computed by the library in the matching supply mode; distinct non-trivial = distinct invocations", n);
     ev::finish(
-        Finish { ctx, level: "exploration", rule, assumptions: vec!["document-less YAML regular files are kept out (recorded C02 finding)".into(), "strace counters are evidence that both supply modes were really observed, not an oracle".into()], extra: serde_json::Map::new(), exhaustive: false, min_distinct: 1000, must_reach: vec![("input_kind_fifo".into(), 200), ("input_kind_stdin".into(), 200), ("input_kind_regular".into(), 1000), ("extension_with_upper_case".into(), 500), ("extension_kind_multi_dot".into(), 200), ("stdin_named_twice".into(), 20), ("resolved_detect_slice".into(), 100), ("resolved_detect_reader".into(), 100), ("stdin_is_regular_file_at_later_offset".into(), 100), ("stdin_is_regular_file_at_offset_0".into(), 50), ("stdin_delivered_in_bursts".into(), 50), ("fifo_delivered_in_bursts".into(), 50)] },
+        Finish { ctx, level: "exploration", rule, assumptions: vec!["document-less YAML regular files are kept out (recorded C02 finding)".into(), "strace counters are evidence that both supply modes were really observed, not an oracle".into()], extra: serde_json::Map::new(), exhaustive: false, min_distinct: 1000, must_reach: vec![("input_kind_fifo".into(), 200), ("input_kind_stdin".into(), 200), ("input_kind_regular".into(), 1000), ("extension_with_upper_case".into(), 500), ("extension_kind_multi_dot".into(), 200), ("stdin_named_twice".into(), 20), ("resolved_detect_slice".into(), 100), ("resolved_detect_reader".into(), 100), ("stdin_is_regular_file_at_later_offset".into(), 100), ("stdin_is_regular_file_at_offset_0".into(), 50), ("stdin_delivered_in_bursts".into(), 50), ("fifo_delivered_in_bursts".into(), 50), ("content_zero_length".into(), 100)] },
         acc,
     )
 }
